@@ -155,8 +155,12 @@ def light_checks(sig, viol):
         viol('replace-ignores-override', {'signature': str(sig), 'what': 'sources'}, {})
     for p in sig.parameters.values():
         q = safe(lambda: p.replace())
+        ne = safe(lambda: q[1] != p) if q[0] == 'ok' else ('ok', False)
+        if ne[0] != 'ok':
+            viol('comparison-raises', {'what': 'parameter %s vs its replace() copy' % p, 'ne': repr(ne)}, {'what': 'parameter'})
+            break
         if q[0] != 'ok' or type(q[1]) is not _S.UpgradedParameter or q[1].upgraded_annotation is not p.upgraded_annotation \
-                or q[1] != p or q[1].sources is not p.sources:
+                or ne[1] or q[1].sources is not p.sources:
             viol('parameter-replace-loses-data', {'signature': str(sig), 'parameter': str(p), 'result': repr(q)[:200]}, {})
             break
         ua = _S.UpgradedAnnotation.preevaluated('X')
